@@ -206,6 +206,17 @@ pub fn compare(case: &Case, e: &ScEval, detail: &mut serde_json::Value) -> Optio
             ));
         }
     }
+    // ---- Arc payloads: dropped at most once, exactly once in complete leak-free executions
+    for r in &e.records {
+        for (x, d) in r.arc_drops.iter().enumerate() {
+            if d.0 > 1 {
+                return Some(("payload_dropped_twice".into(), format!("the value inside arc{} was dropped {} times in one execution", x, d.0)));
+            }
+            if !r.aborted && !sc.leaks.arc && d.0 != 1 {
+                return Some(("payload_not_dropped".into(), format!("a complete execution without leak dropped the value inside arc{} {} times", x, d.0)));
+            }
+        }
+    }
     // ---- trace validation (values of atomic operations are taken from the record: loom's
     // atomics are weaker than the reference's sequentially consistent ones)
     if !p.has(|o| matches!(o, Op::Await { .. })) {
@@ -362,6 +373,16 @@ pub fn build(prop: &str, draws: &[u16], tier: Tier) -> Case {
             2 => ("channel+cells", gen::chan_handover(&mut s)),
             _ => ("try_recv", gen::sync_prog(&mut s, &SyncParams { channel: true, try_recv: true, max_threads: 2, max_ops: 6 + extra, joins: true, ..sp() })),
         },
+        "C10" => match s.pick(5) {
+            0 | 1 => ("arc-leaks", gen::arc_prog(&mut s, &gen::ArcParams { inspect: true, leaks: true, tracked: false, cells: false, max_threads: 2, max_ops: 6 + extra })),
+            2 | 3 => ("tracked", gen::arc_prog(&mut s, &gen::ArcParams { inspect: false, leaks: true, tracked: true, cells: false, max_threads: 2, max_ops: 6 + extra })),
+            _ => ("messages", gen::sync_prog(&mut s, &SyncParams { channel: true, max_threads: 3, max_ops: 6 + extra, joins: true, ..sp() })),
+        },
+        "C11" => match s.pick(4) {
+            0 | 1 => ("arc-inspect", gen::arc_prog(&mut s, &gen::ArcParams { inspect: true, leaks: false, tracked: false, cells: false, max_threads: 3, max_ops: 6 + extra })),
+            2 => ("arc-cells", gen::arc_prog(&mut s, &gen::ArcParams { inspect: true, leaks: false, tracked: false, cells: true, max_threads: 2, max_ops: 7 + extra })),
+            _ => ("arc-plain", gen::arc_prog(&mut s, &gen::ArcParams { inspect: false, leaks: false, tracked: false, cells: true, max_threads: 3, max_ops: 7 + extra })),
+        },
         _ => panic!("sc::build: {}", prop),
     };
     let mut c = Case::new(prop, family, prog);
@@ -386,6 +407,22 @@ pub fn eval(case: &Case) -> Verdict {
         "C07" => e.sc.contended && p.has(|o| matches!(o, Op::Lock { .. } | Op::TryLock { .. } | Op::Read { .. } | Op::Write { .. } | Op::TryRead { .. } | Op::TryWrite { .. })),
         "C08" => p.has(|o| matches!(o, Op::CvWait { .. } | Op::CvWaitWhileZero { .. } | Op::NfWait { .. } | Op::Park | Op::Join { .. })) && (racing || e.sc.contended),
         "C09" => p.has(|o| matches!(o, Op::Recv | Op::TryRecv)) && p.ops().any(|(t, _, o)| matches!(o, Op::Send { .. }) && t != p.rx_owner as usize),
+        "C10" => {
+            // an object crosses a thread boundary: an arc handle owned by a child, or a tracked slot used by two threads
+            let arc_cross = p.ops().any(|(t, _, o)| matches!(o, Op::ArcClone { to, .. } if *to as usize != t));
+            let slot_users = |f: fn(&Op) -> Option<u8>| (0..2u8).any(|k| p.ops().filter(|(_, _, o)| f(o) == Some(k)).map(|(t, _, _)| t).collect::<BTreeSet<_>>().len() >= 2);
+            arc_cross
+                || slot_users(|o| match o {
+                    Op::TrackNew { k } | Op::TrackDrop { k } | Op::TrackForget { k } => Some(*k),
+                    _ => None,
+                })
+                || slot_users(|o| match o {
+                    Op::Alloc { k } | Op::Dealloc { k } => Some(*k),
+                    _ => None,
+                })
+                || p.uses_channel()
+        }
+        "C11" => crate::known::arc_inspect_race(p) || p.ops().any(|(t, _, o)| matches!(o, Op::ArcClone { to, .. } if *to as usize != t)),
         _ => racing,
     };
     let mut detail = serde_json::Value::Null;
